@@ -18,6 +18,7 @@ import (
 	abci "github.com/cometbft/cometbft/abci/types"
 	sdk "github.com/cosmos/cosmos-sdk/types"
 	stakingtypes "github.com/cosmos/cosmos-sdk/x/staking/types"
+	"github.com/ethereum/go-ethereum/common"
 
 	consensustypes "github.com/palomachain/paloma/v2/x/consensus/types"
 	evmtypes "github.com/palomachain/paloma/v2/x/evm/types"
@@ -55,6 +56,7 @@ type situProof struct {
 	balances []string
 	errMsg   string
 	isTx     bool
+	delivers uint64 // != 0: a transaction that really carries the message; applying it puts this valset id live on the chain
 }
 
 type tracked struct {
@@ -486,6 +488,14 @@ func (s *situ) checkEffects(m *tracked, d evidenceVerdict, br *chain.BlockResult
 		}
 		s.rec.Count("situ_effects_checked_balances", 1)
 	case kindTurnstone:
+		if w.delivers != 0 {
+			live, err := s.ch.App.ValsetKeeper.GetLatestSnapshotOnChain(s.ch.Ctx(), m.chainRef)
+			if err != nil || live == nil || live.Id != w.delivers {
+				bad = fmt.Sprintf("delivery of valset %d attested, but the snapshot live on %s is %v (err %v)", w.delivers, m.chainRef, live.GetId(), err)
+			}
+			s.rec.Count("situ_effects_checked_valset_delivered", 1)
+			break
+		}
 		if w.isTx {
 			s.rec.Count("situ_effects_tx_proof_removal_only", 1)
 			return
@@ -742,7 +752,16 @@ func (s *situ) evidenceEpisode(m *tracked) {
 		return
 	}
 	hostile := m.kind == kindRefBlock && s.r.Intn(3) == 0
-	vals := s.proofsFor(m, hostile)
+	var vals []situProof
+	if m.kind == kindTurnstone && m.elected != 0 && s.r.Intn(5) < 2 {
+		vals = s.deliveryPrelude(m)
+		if s.failed || m.done {
+			return
+		}
+	}
+	if vals == nil {
+		vals = s.proofsFor(m, hostile)
+	}
 	camp := s.pickCamp()
 	inCamp := map[string]bool{}
 	for _, a := range camp {
@@ -1141,4 +1160,85 @@ func (s *situ) completeWith(m *tracked) {
 		}
 	}
 	s.block()
+}
+
+// deliveryPrelude runs the relay of an update-valset message the way pigeons do (signatures of
+// all members, public access data by the assignee with the hash of a transaction whose call data
+// is built with the public compass ABI) and returns three candidate proofs: the delivering
+// transaction with its receipt, the same transaction with another receipt, a foreign transaction.
+func (s *situ) deliveryPrelude(m *tracked) []situProof {
+	var txs []qtx
+	for _, v := range s.members {
+		sm, err := world.MsgSign(s.ch, v, m.queue, m.id)
+		if err != nil {
+			return nil
+		}
+		txs = append(txs, qtx{signer: v, msg: sm, desc: fmt.Sprintf("MsgAddMessagesSignatures %s id=%d by %s", m.queue, m.id, v.Name)})
+	}
+	s.block(txs...)
+	qm := s.queueIDs(m.queue)[m.id]
+	if qm == nil || s.failed {
+		return nil
+	}
+	tm := world.TurnstoneMsg(s.ch, qm)
+	if tm == nil {
+		return nil
+	}
+	uv, ok := tm.Action.(*evmtypes.Message_UpdateValset)
+	if !ok {
+		return nil
+	}
+	var relayer *chain.Account
+	for _, a := range s.all {
+		if a.ValBech() == tm.Assignee {
+			relayer = a
+		}
+	}
+	if relayer == nil {
+		return nil
+	}
+	valsetID := s.snapID
+	if ls, err := s.ch.App.ValsetKeeper.GetLatestSnapshotOnChain(s.ch.Ctx(), m.chainRef); err == nil && ls != nil {
+		valsetID = ls.Id
+	}
+	vs, err := world.ValsetOnChain(s.ch, m.chainRef, valsetID)
+	if err != nil {
+		return nil
+	}
+	data, err := world.CallData(s.ch, qm, vs, 0)
+	if err != nil {
+		return nil
+	}
+	ci, err := s.ch.App.EvmKeeper.GetChainInfo(s.ch.Ctx(), m.chainRef)
+	if err != nil {
+		return nil
+	}
+	to := common.HexToAddress(ci.SmartContractAddr)
+	rtx, err := world.NewRemoteTx(relayer.EthKey, ci.ChainID, m.id, &to, data, 1)
+	if err != nil {
+		return nil
+	}
+	accepted := false
+	s.block(qtx{signer: relayer, msg: world.MsgPublicAccess(relayer, m.queue, m.id, rtx.Hash().Bytes(), valsetID),
+		desc:     fmt.Sprintf("MsgSetPublicAccessData %s id=%d by assignee %s (tx %s, valset %d)", m.queue, m.id, relayer.Name, rtx.Hash().Hex(), valsetID),
+		onAccept: func() { accepted = true }})
+	if !accepted {
+		return nil
+	}
+	s.rec.Count("situ_delivery_preludes", 1)
+	target := uv.UpdateValset.Valset.ValsetID
+	p0, _ := rtx.Proof(false)
+	rtx.Receipt.CumulativeGasUsed++
+	p1, _ := rtx.Proof(false)
+	foreign, _ := world.NewRemoteTx(relayer.EthKey, ci.ChainID, m.id+1000, &to, []byte{0xde, 0xad, byte(m.id)}, 1)
+	p2, _ := foreign.Proof(false)
+	out := []situProof{
+		{pv: mkProof(p0, fmt.Sprintf("TxExecutedProof{DELIVERING tx %s, receipt ok}", rtx.Hash().Hex()[:10]), 0), isTx: true, delivers: target},
+		{pv: mkProof(p1, fmt.Sprintf("TxExecutedProof{DELIVERING tx %s, receipt ok gas+1}", rtx.Hash().Hex()[:10]), 1), isTx: true, delivers: target},
+		{pv: mkProof(p2, "TxExecutedProof{foreign tx, receipt ok}", 2), isTx: true},
+	}
+	for _, p := range out {
+		m.proofs[p.pv.key()] = p
+	}
+	return out
 }
